@@ -16,7 +16,7 @@ from ..spec import int_range
 
 LEVEL = "exploration"
 SHARDS = {"quick": 1, "thorough": 16}
-REQUIRED = ("nonbytes_inputs_rejected_with_silent", "errors_judged", "failing_field_confirmed_by_trace", "nested_errors_judged", "flat_errors_judged",
+REQUIRED = ("families_whose_size_expression_can_go_negative", "nonbytes_inputs_rejected_with_silent", "errors_judged", "failing_field_confirmed_by_trace", "nested_errors_judged", "flat_errors_judged",
             "pack_errors_judged", "unpack_errors_judged", "run_names_accepted", "nonbytes_inputs_rejected",
             "silent_none_checked", "pack_collisions_judged")
 MIN_NONTRIVIAL = 150
@@ -234,7 +234,14 @@ def run(run):
     sampled = 0
     if shard == 0:
         f12_probe(run)
-    for bench in driver.families(run, rng, profile, VARIANTS, nfam, tag="c12"):
+    import itertools
+    from .. import predicates
+    for bench in itertools.chain(driver.families(run, rng, profile, VARIANTS, nfam, tag="c12"),
+                                 driver.families(run, rng, dict(profile, accept=predicates.size_can_go_negative,
+                                                                kinds={"int": 40, "data": 45, "bits": 4, "ref": 8, "sel": 2, "em": 1}),
+                                                 VARIANTS, max(10, nfam // 10), tag="c12n")):
+        if predicates.size_can_go_negative(bench.fam):
+            run.count("families_whose_size_expression_can_go_negative")
         fam = bench.fam
         nonbytes_probe(run, bench)
         seen = set()
